@@ -7,7 +7,7 @@ from ..core import AnalysisError
 from ..src import arg_names, calls_in, unparse
 
 LEVEL = "other"
-TECHNIQUE = "writer/reader table agreement on the meshio cell-data keys (tag provenance), provenance typing of the exported arrays, exhaustiveness lint of the transformation modes; finite-domain abstract execution of export() and _transform_array (file type x data type x real/complex x mode) with exact evaluation of each mode over a symbolic complex vector; lossless-cast and fallback-condition rules"
+TECHNIQUE = "writer/reader table agreement on the meshio cell-data keys (tag provenance), provenance typing of the exported arrays, exhaustiveness lint of the transformation modes; finite-domain abstract execution of export() and _transform_array (file type x data type x real/complex x mode) with exact evaluation of each mode over a symbolic complex vector; lossless-cast and fallback-condition rules; shape rule of the vertex / centre evaluation the exporter writes"
 LEVEL_TEXT = (
     "Decides the clauses visible in the shape of io.py: every cell-data key from which the importer may take domain "
     "indices is written by the exporter with the domain indices themselves; cells and points are written from "
